@@ -185,8 +185,10 @@ def tpRender(self, md, section, args,
                 def get_items(node, branches_expr=args['branches_expr'],
                               md=md):
                     md._push(InstanceDict(node, md))
-                    items = branches_expr(md)
-                    md._pop()
+                    try:
+                        items = branches_expr(md)
+                    finally:
+                        md._pop()
                     return items
             state = [id, tpValuesIds(self, get_items, args)],
         else:
